@@ -339,7 +339,15 @@ def wif_cases(draw):
         if kind == "mutated":
             s, _ = draw(gen.edit_mutation(s, rb58.ALPHABET.encode(), b"0OIl ", max_edits=2))
         return {"mode": mode, "kind": kind, "s": s.hex()}
-    kind = draw(st.sampled_from(["len", "range"]))
+    kind = draw(st.sampled_from(["len", "len-near-valid", "range"]))
+    if kind == "len-near-valid":
+        # a valid key in a byte string of the wrong length (padding / flag bytes other layers put around the same integer)
+        k = draw(key32())
+        how = draw(st.sampled_from(["00+k", "0000+k", "k+00", "k+01", "01+k", "strip"]))
+        body = {"00+k": b"\x00" + k, "0000+k": b"\x00\x00" + k, "k+00": k + b"\x00", "k+01": k + b"\x01", "01+k": b"\x01" + k, "strip": k.lstrip(b"\x00")[:31]}[how]
+        if len(body) == 32:
+            body = body[1:]
+        return {"mode": mode, "key": body.hex()}
     if kind == "len":
         n = draw(st.integers(0, 40).filter(lambda n: n != 32))
         return {"mode": mode, "key": draw(st.binary(min_size=n, max_size=n)).hex()}
